@@ -1,4 +1,17 @@
 //! C12 — UAS INVITE: one final response under any CANCEL/BYE/accept race; 2xx until ACK
+//!
+//! World (`run`, also driven by two sub-checks of C08): one INVITE handed to Dialog::new_server + Acceptor, a scripted
+//! application (180 / reliable 183 / reliable 183 abandoned after N ms / accept / reject / drop, in order) and a
+//! scripted peer (CANCEL, BYE, PRACK, ACK, copy of the INVITE, re-INVITE at absolute instants). Dimensions of the
+//! world besides the two scripts: transport reliability, source port of later messages, how long the application
+//! leaves the session undriven, a send latency (every `Transport::send` stays pending N ms after its bytes went
+//! out, so the receive path runs while a responding call is suspended), and a send-fault plan (the k-th send call
+//! is refused with an io::Error; the refused bytes are kept so that the oracle knows whose answer it was).
+//! Oracle: the wire log grouped by (branch, CSeq method), the results of the acceptor calls, virtual timestamps.
+//! Not asserted: when a reliable provisional is given up; which of 200/481 an unmatched CANCEL gets; anything
+//! about a request whose own final response the transport refused (it counts as answered with the refused code);
+//! exact instants under send latency (copy k may leave up to (k+1)*latency after its nominal instant, never
+//! before; nothing may leave after the ACK / PRACK).
 
 use crate::engine::*;
 use crate::refmodel::ref_tsx::{self, T1, T2, TIMEOUT};
@@ -15,8 +28,11 @@ use sip_ua::dialog::{Dialog, DialogLayer};
 use sip_ua::invite::acceptor::Acceptor;
 use sip_ua::invite::session::Event;
 use sip_ua::invite::InviteLayer;
+use sip_core::transport::{Direction, TpHandle, Transport};
+use std::collections::BTreeSet;
 use std::net::SocketAddr;
 use std::sync::Arc;
+use std::time::Duration;
 use tokio::sync::mpsc;
 
 const BRANCH: &str = "z9hG4bKc12invite";
@@ -29,6 +45,8 @@ pub enum AppOp {
     Accept,
     Reject(u16),
     Drop,
+    /// reliable 183 whose future the application abandons (drops) after this many ms without a PRACK
+    Rel183Abandon(u64),
 }
 
 #[derive(Serialize, Deserialize, Clone, Copy, Debug, Hash, PartialEq, Eq)]
@@ -67,6 +85,15 @@ pub struct Case {
     /// the application starts driving the established session only this long after `respond_success` returned
     #[serde(default)]
     pub session_busy_ms: u64,
+    /// every `Transport::send` stays pending this long (virtual ms) after its bytes went out, like a socket under
+    /// back-pressure: other tasks (the receive path) run while the sending call is suspended
+    #[serde(default)]
+    pub send_delay_ms: u64,
+    /// ordinals (0-based, counted over every `Transport::send` call of the case) of sends the transport refuses
+    /// with an io::Error without suspending (e.g. a pending ICMP error reported on the next UDP send); nothing
+    /// reaches the wire for such a call
+    #[serde(default)]
+    pub fail_sends: Vec<u8>,
 }
 
 // ---------------------------------------------------------------------------------------------
@@ -100,6 +127,75 @@ impl Layer for AcceptLayer {
     }
 }
 
+/// The datagram transport of this world: writes to the `WireLog` like `world::MockDatagram`, and additionally
+/// (a) keeps every send pending for `delay_ms` after the bytes went out, (b) refuses the sends whose ordinal is in
+/// the plan with an io::Error *and keeps the refused bytes*, so that the oracle knows which request's response the
+/// transport would not take.
+struct PlanDatagram {
+    reliable: bool,
+    bound: SocketAddr,
+    log: WireLog,
+    delay_ms: u64,
+    plan: Arc<Mutex<SendPlan>>,
+}
+
+#[derive(Default)]
+struct SendPlan {
+    calls: usize,
+    fail: BTreeSet<usize>,
+    refused: Vec<Sent>,
+}
+
+impl std::fmt::Debug for PlanDatagram {
+    fn fmt(&self, f: &mut std::fmt::Formatter<'_>) -> std::fmt::Result {
+        write!(f, "PlanDatagram({})", self.bound)
+    }
+}
+impl std::fmt::Display for PlanDatagram {
+    fn fmt(&self, f: &mut std::fmt::Formatter<'_>) -> std::fmt::Result {
+        write!(f, "mock:UDP:{}", self.bound)
+    }
+}
+
+#[async_trait::async_trait]
+impl Transport for PlanDatagram {
+    fn name(&self) -> &'static str {
+        "UDP"
+    }
+    fn secure(&self) -> bool {
+        false
+    }
+    fn reliable(&self) -> bool {
+        self.reliable
+    }
+    fn bound(&self) -> SocketAddr {
+        self.bound
+    }
+    fn sent_by(&self) -> SocketAddr {
+        self.bound
+    }
+    fn direction(&self) -> Direction {
+        Direction::None
+    }
+    async fn send(&self, message: &[u8], target: SocketAddr) -> std::io::Result<()> {
+        let sent = Sent { t_ms: self.log.clock.now_ms(), tp: 7, dest: target, bytes: bytes::Bytes::copy_from_slice(message) };
+        {
+            let mut plan = self.plan.lock();
+            let n = plan.calls;
+            plan.calls += 1;
+            if plan.fail.contains(&n) {
+                plan.refused.push(sent);
+                return Err(std::io::Error::new(std::io::ErrorKind::ConnectionRefused, "mock transient send failure"));
+            }
+        }
+        self.log.sent.lock().push(sent);
+        if self.delay_ms > 0 {
+            tokio::time::sleep(Duration::from_millis(self.delay_ms)).await;
+        }
+        Ok(())
+    }
+}
+
 #[derive(Clone, Debug)]
 pub struct AppResult {
     pub op: AppOp,
@@ -117,6 +213,8 @@ pub struct Observed {
     pub rseq: Option<u32>,
     pub cancellables_end: usize,
     pub dialogs_end: usize,
+    /// messages the transport refused (send-fault plan), in call order
+    pub refused: Vec<(Sent, Option<WireMsg>)>,
 }
 
 fn invite_bytes() -> Vec<u8> {
@@ -163,7 +261,18 @@ pub fn run(case: &Case, horizon: u64) -> Observed {
     let case = case.clone();
     run_world(case.rng as u64, |clock| async move {
         let log = WireLog::new(clock);
-        let (tp, _) = mock_datagram(&log, "UDP", false, case.reliable, "10.0.0.1:5060");
+        let plan: Arc<Mutex<SendPlan>> = Default::default();
+        plan.lock().fail = case.fail_sends.iter().map(|n| *n as usize).collect();
+        let tp = TpHandle::new(PlanDatagram {
+            reliable: case.reliable,
+            bound: "10.0.0.1:5060".parse().unwrap(),
+            log: log.clone(),
+            delay_ms: case.send_delay_ms,
+            plan: plan.clone(),
+        });
+        let refused_of = move || -> Vec<(Sent, Option<WireMsg>)> {
+            plan.lock().refused.iter().map(|s| (s.clone(), WireMsg::parse(&s.bytes))).collect()
+        };
         let rec = Recorder::new(clock);
         let (tx, mut rx) = mpsc::unbounded_channel();
         let mut b = offline_builder();
@@ -179,7 +288,7 @@ pub fn run(case: &Case, horizon: u64) -> Observed {
         let app_results: Arc<Mutex<Vec<AppResult>>> = Default::default();
         let session_events: Arc<Mutex<Vec<(u64, String)>>> = Default::default();
         let Ok((acceptor, local_tag)) = rx.try_recv() else {
-            return Observed { wire: log.parsed(), app: vec![], seen: rec.snapshot(), session_events: vec![], rseq: None, cancellables_end: 0, dialogs_end: 0 };
+            return Observed { wire: log.parsed(), app: vec![], seen: rec.snapshot(), session_events: vec![], rseq: None, cancellables_end: 0, dialogs_end: 0, refused: refused_of() };
         };
 
         // application task: ops in order
@@ -215,6 +324,14 @@ pub fn run(case: &Case, horizon: u64) -> Observed {
                             Ok(r) => match acc.respond_provisional_reliable(r).await {
                                 Ok(_prack) => "ok".into(),
                                 Err(e) => classify_err(&e.to_string()),
+                            },
+                        },
+                        AppOp::Rel183Abandon(ms) => match acc.create_response(Code::from(183), None).await {
+                            Err(e) => classify_err(&e.to_string()),
+                            Ok(r) => match tokio::time::timeout(Duration::from_millis(ms), acc.respond_provisional_reliable(r)).await {
+                                Err(_) => "abandoned".into(),
+                                Ok(Ok(_prack)) => "ok".into(),
+                                Ok(Err(e)) => classify_err(&e.to_string()),
                             },
                         },
                         AppOp::Reject(code) => match acc.create_response(Code::from(code), None).await {
@@ -362,6 +479,7 @@ pub fn run(case: &Case, horizon: u64) -> Observed {
             rseq,
             cancellables_end: endpoint[il].verif_counts(),
             dialogs_end: endpoint[dl].verif_counts().0,
+            refused: refused_of(),
         };
         out
     })
@@ -410,6 +528,9 @@ pub struct AcceptCase {
     pub reliable: bool,
     #[serde(default)]
     pub alt_source: bool,
+    /// every send of the transport stays pending this long (see `Case::send_delay_ms`)
+    #[serde(default)]
+    pub send_delay_ms: u64,
 }
 
 fn ack_grid() -> Vec<u64> {
@@ -434,18 +555,126 @@ pub fn accept_cases(tier: Tier) -> Vec<AcceptCase> {
             out.push(c);
         }
     }
+    // a transport whose send stays pending for d ms (back-pressure): the ACK may be processed while the call that
+    // sent the 2xx (or one of its copies) is still suspended inside `Transport::send`. ACK instants: inside the
+    // first send, just after it, inside the send of the first / second copy, in the middle of the intervals, never
+    for d in [2u64, 20] {
+        for (reliable, alt_source) in [(false, false), (true, false), (false, true)] {
+            if (reliable || alt_source) && (tier == Tier::Quick && d != 2) {
+                continue;
+            }
+            let mut acks: Vec<Option<u64>> = vec![None, Some(1), Some(d - 1), Some(d + 1), Some(250), Some(T1 + d + 1), Some(1000), Some(3 * T1 + 2 * d + 1), Some(2500), Some(5500)];
+            if tier == Tier::Thorough {
+                acks.extend([Some(9500), Some(13_500), Some(29_500), Some(TIMEOUT - 200), Some(TIMEOUT + 600)]);
+            }
+            acks.dedup();
+            for (i, a) in acks.into_iter().enumerate() {
+                for accept_at in [0u64, 30] {
+                    let mk = |acks: Vec<(u64, bool)>| AcceptCase { accept_at, acks, prov_first: accept_at > 0 && i % 2 == 1, rng: (i as u8).wrapping_mul(3).wrapping_add(d as u8), reliable, alt_source, send_delay_ms: d };
+                    match a {
+                        None => out.push(mk(vec![])),
+                        Some(a) => {
+                            out.push(mk(vec![(a, true)]));
+                            // an ACK with another CSeq at that instant, the right one later / never
+                            out.push(mk(vec![(a, false), (a + 700, true)]));
+                            if tier == Tier::Thorough {
+                                out.push(mk(vec![(a, false)]));
+                            }
+                        }
+                    }
+                }
+            }
+        }
+    }
     out
 }
 
+/// Transmission instants of a message whose copies are due `sched` ms after the first one, sent by a caller whose
+/// every send stays pending `d` ms: the timers are (re)armed by a caller that got control back late, so copy k may
+/// leave up to (k+1)*d after its nominal instant, never before it. `stop` = instant after which nothing more may be
+/// sent (the acknowledgement, or the give-up instant). Returns (locus, text) of the first deviation.
+fn check_drifting(times: &[u64], t0: u64, sched: &[u64], d: u64, stop: u64) -> Option<(&'static str, String)> {
+    if times.first() != Some(&t0) {
+        return Some(("first-transmission", format!("first transmission {:?}, expected {t0}", times.first())));
+    }
+    if let Some(t) = times.iter().find(|t| **t > stop) {
+        return Some(("continues-after-ack-or-64T1", format!("transmission at {t} after {stop}: {times:?}")));
+    }
+    let mut sure = 1usize; // copies that must have left before `stop`
+    let mut maybe = 1usize; // copies that may have left before `stop`
+    for (k, s) in sched.iter().enumerate() {
+        let k = k as u64 + 1;
+        let (lo, hi) = (t0 + s, t0 + s + (k + 1) * d);
+        if hi < stop {
+            sure += 1;
+        }
+        if lo <= stop {
+            maybe += 1;
+        }
+        if let Some(t) = times.get(k as usize) {
+            if *t < lo || *t > hi {
+                return Some(("interval", format!("copy {k} sent at {t}, expected within [{lo},{hi}]: {times:?}")));
+            }
+        }
+    }
+    if times.len() < sure || times.len() > maybe {
+        return Some(("interval", format!("{} transmissions {times:?}, expected {sure}..={maybe} before {stop}", times.len())));
+    }
+    None
+}
+
+/// accept_retransmit over a transport whose sends stay pending
+fn check_accept_slow(c: &AcceptCase, obs: &Observed, out: &mut CaseOut) {
+    let d = c.send_delay_ms;
+    let finals: Vec<u64> = responses_for(obs, BRANCH, INVITE_CSEQ, "INVITE").iter().filter(|(_, m)| m.status() == Some(200)).map(|(s, _)| s.t_ms).collect();
+    let sched = accept_schedule();
+    // (no ACK is generated inside the give-up window here)
+    let good_ack = c.acks.iter().filter(|(_, ok)| *ok).map(|(t, _)| c.accept_at + *t).find(|t| *t < c.accept_at + TIMEOUT);
+    let late_ack = c.acks.iter().any(|(t, ok)| *ok && *t >= TIMEOUT);
+    let stop = good_ack.unwrap_or(c.accept_at + TIMEOUT);
+    if let Some((locus, text)) = check_drifting(&finals, c.accept_at, &sched, d, stop) {
+        out.fail(format!("c12.2xx-retransmit/{locus}"), format!("send latency {d} ms, accept at {}, matching ACK at {good_ack:?}: {text}", c.accept_at));
+    }
+    let res = obs.app.iter().find(|a| a.op == AppOp::Accept);
+    let slack = (sched.len() as u64 + 2) * d;
+    match (good_ack, res) {
+        // the call returns when the ACK is there and the send it was suspended in (if any) has completed
+        (Some(a), Some(r)) if r.outcome == "ok" && r.ended >= a.max(c.accept_at + d) && r.ended <= a.max(c.accept_at + d) + d => {}
+        (Some(a), r) => out.fail("c12.accept/result-with-ack", format!("send latency {d} ms, ACK at {a}: respond_success gave {r:?}")),
+        (None, Some(r)) if late_ack && r.outcome == "ok" => {}
+        (None, Some(r)) if r.outcome == "timeout" && r.ended >= c.accept_at + TIMEOUT && r.ended <= c.accept_at + TIMEOUT + T2 + slack => {}
+        (None, r) => out.fail(
+            "c12.accept/abandoned-not-after-64T1",
+            format!("send latency {d} ms, no matching ACK: expected RequestTimedOut within [{},{}], got {r:?}", c.accept_at + TIMEOUT, c.accept_at + TIMEOUT + T2 + slack),
+        ),
+    }
+    out.class("send stays pending (back-pressure)");
+    if let Some(a) = good_ack {
+        let rel = a - c.accept_at;
+        if rel < d {
+            out.class("ACK while the first 2xx send is pending");
+        } else if sched.iter().enumerate().any(|(k, s)| rel >= *s && rel <= *s + (k as u64 + 2) * d) {
+            out.class("ACK while a 2xx copy is being sent");
+        }
+        out.class("acked");
+    } else {
+        out.class("ack-lost");
+    }
+    if c.acks.iter().any(|(_, ok)| !*ok) {
+        out.class("ack-with-other-cseq");
+    }
+    out.nontrivial(c);
+}
+
 fn accept_cases_base(tier: Tier) -> Vec<AcceptCase> {
-    let mut out = vec![AcceptCase { accept_at: 0, acks: vec![], prov_first: false, rng: 0, reliable: false, alt_source: false }, AcceptCase { accept_at: 30, acks: vec![], prov_first: true, rng: 1, reliable: false, alt_source: false }];
+    let mut out = vec![AcceptCase { accept_at: 0, acks: vec![], prov_first: false, rng: 0, reliable: false, alt_source: false, send_delay_ms: 0 }, AcceptCase { accept_at: 30, acks: vec![], prov_first: true, rng: 1, reliable: false, alt_source: false, send_delay_ms: 0 }];
     for (i, a) in ack_grid().into_iter().enumerate() {
         for accept_at in [0u64, 30] {
-            out.push(AcceptCase { accept_at, acks: vec![(a, true)], prov_first: i % 2 == 0, rng: i as u8, reliable: false, alt_source: false });
+            out.push(AcceptCase { accept_at, acks: vec![(a, true)], prov_first: i % 2 == 0, rng: i as u8, reliable: false, alt_source: false, send_delay_ms: 0 });
             // an ACK with another CSeq first: changes nothing
-            out.push(AcceptCase { accept_at, acks: vec![(a, false)], prov_first: false, rng: i as u8, reliable: false, alt_source: false });
+            out.push(AcceptCase { accept_at, acks: vec![(a, false)], prov_first: false, rng: i as u8, reliable: false, alt_source: false, send_delay_ms: 0 });
             if tier == Tier::Thorough || i % 3 == 0 {
-                out.push(AcceptCase { accept_at, acks: vec![(a.saturating_sub(200).max(1), false), (a, true)], prov_first: false, rng: i as u8, reliable: false, alt_source: false });
+                out.push(AcceptCase { accept_at, acks: vec![(a.saturating_sub(200).max(1), false), (a, true)], prov_first: false, rng: i as u8, reliable: false, alt_source: false, send_delay_ms: 0 });
             }
         }
     }
@@ -460,10 +689,14 @@ pub fn check_accept(c: &AcceptCase, out: &mut CaseOut) {
     app.push((c.accept_at, AppOp::Accept));
     let mut net: Vec<(u64, NetOp)> = c.acks.iter().map(|(t, ok)| (c.accept_at + t, NetOp::Ack { cseq_ok: *ok })).collect();
     net.sort_by_key(|n| n.0);
-    let case = Case { app, net, net_first: false, rng: c.rng, reliable: c.reliable, alt_source: c.alt_source, session_busy_ms: 0 };
+    let case = Case { app, net, net_first: false, rng: c.rng, reliable: c.reliable, alt_source: c.alt_source, send_delay_ms: c.send_delay_ms, ..Default::default() };
     let horizon = c.accept_at + TIMEOUT + T2 + 3000;
     let obs = run(&case, horizon);
     out.note = Some(describe(&obs));
+    if c.send_delay_ms > 0 {
+        check_accept_slow(c, &obs, out);
+        return;
+    }
 
     let finals: Vec<u64> = responses_for(&obs, BRANCH, INVITE_CSEQ, "INVITE")
         .iter()
@@ -535,6 +768,8 @@ pub struct RelCase {
     pub reliable: bool,
     #[serde(default)]
     pub alt_source: bool,
+    #[serde(default)]
+    pub send_delay_ms: u64,
 }
 
 pub fn rel_cases(tier: Tier) -> Vec<RelCase> {
@@ -549,7 +784,88 @@ pub fn rel_cases(tier: Tier) -> Vec<RelCase> {
             out.push(c);
         }
     }
+    // sends that stay pending for d ms: the PRACK may be processed while the call that sent the 183 (or a copy of
+    // it) is still suspended inside `Transport::send`
+    for d in [2u64, 20] {
+        let mut at: Vec<u64> = vec![1, d - 1, d + 1, 250, T1 + d + 1, 1000, 3 * T1 + 2 * d + 1, 2500];
+        if tier == Tier::Thorough {
+            at.extend([5500, 11_500]);
+        }
+        at.dedup();
+        out.push(RelCase { pracks: vec![], rng: d as u8, reliable: false, alt_source: false, send_delay_ms: d });
+        for (i, t) in at.into_iter().enumerate() {
+            let rng = (i as u8).wrapping_mul(5).wrapping_add(d as u8);
+            out.push(RelCase { pracks: vec![(t, true, true)], rng, reliable: false, alt_source: false, send_delay_ms: d });
+            out.push(RelCase { pracks: vec![(t, false, true), (t + 300, true, true)], rng, reliable: i % 2 == 1, alt_source: false, send_delay_ms: d });
+            if tier == Tier::Thorough {
+                out.push(RelCase { pracks: vec![(t, true, false)], rng, reliable: false, alt_source: i % 2 == 1, send_delay_ms: d });
+            }
+        }
+    }
     out
+}
+
+/// reliable_provisional over a transport whose sends stay pending
+fn check_rel_slow(c: &RelCase, net: &[(u64, NetOp)], obs: &Observed, out: &mut CaseOut) {
+    let d = c.send_delay_ms;
+    let sends: Vec<u64> = responses_for(obs, BRANCH, INVITE_CSEQ, "INVITE").iter().filter(|(_, m)| m.status() == Some(183)).map(|(s, _)| s.t_ms).collect();
+    if sends.is_empty() {
+        out.fail("c12.rel1xx/not-sent", format!("183 transmissions {sends:?}"));
+        return;
+    }
+    let good = c.pracks.iter().filter(|(_, r, s)| *r && *s).map(|(t, _, _)| *t).min();
+    // as without latency only the first 3.5 s (5 copies) of the schedule are demanded, the rest is optional
+    let sched: Vec<u64> = ref_tsx::rel1xx_schedule().into_iter().skip(1).collect();
+    let demanded: Vec<u64> = sched.iter().copied().filter(|t| *t <= 3500).collect();
+    let stop = good.unwrap_or(u64::MAX);
+    let upto = sends.len().min(demanded.len() + 1);
+    if let Some((locus, text)) = check_drifting(&sends[..upto], 0, &demanded, d, stop.min(3500 + 5 * d + 1)) {
+        let sig = match locus {
+            "first-transmission" => "c12.rel1xx/not-sent",
+            "continues-after-ack-or-64T1" if good.is_some() => "c12.rel1xx/continues-after-prack",
+            _ => "c12.rel1xx/interval-not-doubling",
+        };
+        out.fail(sig, format!("send latency {d} ms, matching PRACK at {good:?}: {text}"));
+    }
+    // the optional tail: never before its nominal instant, never after the PRACK
+    for (k, t) in sends.iter().enumerate().skip(demanded.len() + 1) {
+        match sched.get(k - 1) {
+            Some(s) if *t >= *s && *t <= *s + (k as u64 + 1) * d => {}
+            other => out.fail("c12.rel1xx/interval-not-doubling", format!("send latency {d} ms: copy {k} at {t}, nominal {other:?}: {sends:?}")),
+        }
+    }
+    if let Some(g) = good {
+        if sends.iter().any(|t| *t > g) {
+            out.fail("c12.rel1xx/continues-after-prack", format!("send latency {d} ms: 183 re-sent after the matching PRACK at {g}: {sends:?}"));
+        }
+    }
+    for (i, (t, r, s)) in c.pracks.iter().enumerate() {
+        let n = net.iter().position(|(nt, op)| nt == t && *op == NetOp::Prack { rack_ok: *r, cseq_ok: *s }).unwrap_or(i) as u32 + 1;
+        let codes: Vec<u16> = responses_for(obs, &format!("z9hG4bKc12prack{n}"), 0, "PRACK").iter().filter_map(|(_, m)| m.status()).collect();
+        if *r && *s && Some(*t) == good {
+            // (every matching PRACK generated here arrives while the call still waits)
+            if codes != vec![200] {
+                out.fail("c12.prack/matching-not-answered-200", format!("send latency {d} ms: matching PRACK at {t} answered {codes:?}"));
+            }
+        } else if codes.contains(&200) {
+            out.fail("c12.prack/mismatching-answered-200", format!("PRACK at {t} (rack_ok={r}, cseq_ok={s}) answered 200"));
+        }
+    }
+    if let (Some(g), Some(r)) = (good, obs.app.iter().find(|a| a.op == AppOp::Rel183)) {
+        let lo = g.max(d);
+        if !(r.outcome == "ok" && r.ended >= lo && r.ended <= lo + d) {
+            out.fail("c12.rel1xx/result", format!("send latency {d} ms, matching PRACK at {g}: respond_provisional_reliable gave {r:?}"));
+        }
+    }
+    out.class("send stays pending (back-pressure)");
+    if good.map_or(false, |g| g < d) {
+        out.class("PRACK while the first 183 send is pending");
+    }
+    out.class(if good.is_some() { "prack-matching" } else { "prack-missing-or-wrong" });
+    if c.pracks.iter().any(|(_, r, s)| !(*r && *s)) {
+        out.class("prack-mismatch");
+    }
+    out.nontrivial(c);
 }
 
 fn rel_cases_base(tier: Tier) -> Vec<RelCase> {
@@ -558,15 +874,15 @@ fn rel_cases_base(tier: Tier) -> Vec<RelCase> {
         grid.push(s - 1);
         grid.push(s + 1);
     }
-    let mut out = vec![RelCase { pracks: vec![], rng: 0, reliable: false, alt_source: false }];
+    let mut out = vec![RelCase { pracks: vec![], rng: 0, reliable: false, alt_source: false, send_delay_ms: 0 }];
     for (i, t) in grid.iter().enumerate() {
         if *t > 16_000 && tier == Tier::Quick && i % 2 == 0 {
             continue;
         }
-        out.push(RelCase { pracks: vec![(*t, true, true)], rng: i as u8, reliable: false, alt_source: false });
-        out.push(RelCase { pracks: vec![(*t, false, true)], rng: i as u8, reliable: false, alt_source: false });
-        out.push(RelCase { pracks: vec![(*t, true, false)], rng: i as u8, reliable: false, alt_source: false });
-        out.push(RelCase { pracks: vec![(t.saturating_sub(100).max(1), false, true), (*t, true, true)], rng: i as u8, reliable: false, alt_source: false });
+        out.push(RelCase { pracks: vec![(*t, true, true)], rng: i as u8, reliable: false, alt_source: false, send_delay_ms: 0 });
+        out.push(RelCase { pracks: vec![(*t, false, true)], rng: i as u8, reliable: false, alt_source: false, send_delay_ms: 0 });
+        out.push(RelCase { pracks: vec![(*t, true, false)], rng: i as u8, reliable: false, alt_source: false, send_delay_ms: 0 });
+        out.push(RelCase { pracks: vec![(t.saturating_sub(100).max(1), false, true), (*t, true, true)], rng: i as u8, reliable: false, alt_source: false, send_delay_ms: 0 });
     }
     out
 }
@@ -574,9 +890,13 @@ fn rel_cases_base(tier: Tier) -> Vec<RelCase> {
 pub fn check_rel(c: &RelCase, out: &mut CaseOut) {
     let mut net: Vec<(u64, NetOp)> = c.pracks.iter().map(|(t, r, s)| (*t, NetOp::Prack { rack_ok: *r, cseq_ok: *s })).collect();
     net.sort_by_key(|n| n.0);
-    let case = Case { app: vec![(0, AppOp::Rel183)], net: net.clone(), net_first: false, rng: c.rng, reliable: c.reliable, alt_source: c.alt_source, session_busy_ms: 0 };
+    let case = Case { app: vec![(0, AppOp::Rel183)], net: net.clone(), net_first: false, rng: c.rng, reliable: c.reliable, alt_source: c.alt_source, send_delay_ms: c.send_delay_ms, ..Default::default() };
     let obs = run(&case, TIMEOUT + 5000);
     out.note = Some(describe(&obs));
+    if c.send_delay_ms > 0 {
+        check_rel_slow(c, &net, &obs, out);
+        return;
+    }
     let sends: Vec<u64> = responses_for(&obs, BRANCH, INVITE_CSEQ, "INVITE").iter().filter(|(_, m)| m.status() == Some(183)).map(|(s, _)| s.t_ms).collect();
     if sends.is_empty() || sends[0] != 0 {
         out.fail("c12.rel1xx/not-sent", format!("183 transmissions {sends:?}"));
@@ -665,15 +985,22 @@ pub fn race_strategy() -> BoxedStrategy<Case> {
         any::<u8>(),
         prop_oneof![3 => Just(false), 1 => Just(true)],
         prop_oneof![2 => Just(false), 1 => Just(true)],
+        // sends stay pending 2 ms (an event 1 ms later is processed while the sending call is suspended)
+        prop_oneof![3 => Just(0u64), 1 => Just(2u64)],
+        // the transport refuses one send (any of the first six of the case)
+        prop_oneof![3 => Just(None), 1 => (0u8..6).prop_map(Some)],
     )
-        .prop_map(|(app, net, net_first, rng, reliable, alt_source)| {
+        .prop_map(|(app, net, net_first, rng, reliable, alt_source, send_delay_ms, fault)| {
             let mut app: Vec<(u64, AppOp)> = app.into_iter().map(|(s, o)| (RACE_TIMES[pick_idx(s, RACE_TIMES.len())], o)).collect();
             app.sort_by_key(|a| a.0);
             let mut net: Vec<(u64, NetOp)> = net.into_iter().map(|(s, o)| (RACE_TIMES[pick_idx(s, RACE_TIMES.len())], o)).collect();
             net.sort_by_key(|a| a.0);
-            if reliable {
+            if reliable || fault.is_some() {
                 // over a reliable transport the peer never sends a request twice (no copy of the INVITE, one CANCEL
-                // per branch): a second copy would find its transaction gone and be a new request
+                // per branch): a second copy would find its transaction gone and be a new request. The same holds
+                // when the transport refuses a send: a refused final response ends its transaction unanswered, a
+                // copy of that request arriving afterwards is legitimately a new request (a new call for the INVITE,
+                // as after a Drop; a CANCEL that now may cancel although "its" first copy did not match)
                 let mut seen_cancel = [false; 2];
                 net.retain(|(_, o)| match o {
                     NetOp::DupInvite => false,
@@ -681,9 +1008,39 @@ pub fn race_strategy() -> BoxedStrategy<Case> {
                     _ => true,
                 });
             }
-            Case { app, net, net_first, rng, reliable, alt_source, session_busy_ms: 0 }
+            Case { app, net, net_first, rng, reliable, alt_source, session_busy_ms: 0, send_delay_ms, fail_sends: fault.into_iter().collect() }
         })
         .boxed()
+}
+
+/// Every shape of "a CANCEL / BYE meets the pending INVITE" x the transport refusing exactly one of the sends
+/// involved (the 180, the 487, the 200 of the CANCEL / BYE, a copy of the 487), judged by `check_race`
+pub fn fault_cases(tier: Tier) -> Vec<Case> {
+    let cancel = NetOp::Cancel { branch_ok: true, cseq_ok: true };
+    let nets: Vec<Vec<(u64, NetOp)>> = vec![
+        vec![(5, cancel)],
+        vec![(5, NetOp::Bye)],
+        vec![(5, cancel), (6, NetOp::Bye)],
+        vec![(5, NetOp::Bye), (6, cancel)],
+        vec![(5, NetOp::Cancel { branch_ok: false, cseq_ok: true }), (6, NetOp::Bye)],
+    ];
+    let apps: Vec<Vec<(u64, AppOp)>> = vec![vec![], vec![(1, AppOp::Prov180)], vec![(1, AppOp::Prov180), (7, AppOp::Accept)], vec![(1, AppOp::Prov180), (5, AppOp::Reject(486))]];
+    let mut out = vec![];
+    for (i, net) in nets.iter().enumerate() {
+        for (j, app) in apps.iter().enumerate() {
+            for fault in 0u8..5 {
+                for net_first in [false, true] {
+                    for (reliable, send_delay_ms) in [(false, 0u64), (true, 0), (false, 2)] {
+                        if tier == Tier::Quick && (reliable || send_delay_ms > 0) && net_first {
+                            continue;
+                        }
+                        out.push(Case { app: app.clone(), net: net.clone(), net_first, rng: (i * 16 + j * 4) as u8 + fault, reliable, send_delay_ms, fail_sends: vec![fault], ..Default::default() });
+                    }
+                }
+            }
+        }
+    }
+    out
 }
 
 pub fn check_race(case: &Case, out: &mut CaseOut) {
@@ -694,7 +1051,18 @@ pub fn check_race(case: &Case, out: &mut CaseOut) {
     // INVITE finals
     let inv: Vec<(&Sent, &WireMsg)> = responses_for(&obs, BRANCH, INVITE_CSEQ, "INVITE");
     let finals: Vec<&(&Sent, &WireMsg)> = inv.iter().filter(|(_, m)| m.status().unwrap_or(0) >= 200).collect();
-    let mut codes: Vec<u16> = finals.iter().filter_map(|(_, m)| m.status()).collect();
+    // final responses the transport refused to take (send-fault plan) count as the stack's answer: it decided and
+    // tried, what a refused datagram means for "is sent" is outside the statement
+    let refused_for = |branch: &str, method: &str| -> Vec<u16> {
+        obs.refused
+            .iter()
+            .filter_map(|(_, m)| m.as_ref())
+            .filter(|m| !m.is_request() && m.via_branch().as_deref() == Some(branch) && m.cseq().map_or(false, |(_, mm)| mm == method))
+            .filter_map(|m| m.status())
+            .filter(|c| *c >= 200)
+            .collect()
+    };
+    let mut codes: Vec<u16> = finals.iter().filter_map(|(_, m)| m.status()).chain(refused_for(BRANCH, "INVITE")).collect();
     codes.sort();
     codes.dedup();
 
@@ -804,7 +1172,14 @@ pub fn check_race(case: &Case, out: &mut CaseOut) {
                 c.dedup();
                 let matching = *branch_ok && *cseq_ok;
                 // several CANCELs for the same transaction share branch+CSeq: judged together
-                if c.is_empty() {
+                if !refused_for(&branch, "CANCEL").is_empty() {
+                    // the transport refused the answer to (a copy of) this CANCEL: its transaction ended there, a
+                    // later copy is a new request that finds nothing to cancel; only the code range stays asserted
+                    out.class("own 200/481 refused by the transport (excused)");
+                    if c.iter().any(|x| *x != 200 && *x != 481) {
+                        out.fail("c12.cancel/unexpected-code", format!("CANCEL at {t} answered {c:?} (allowed: 200, 481)"));
+                    }
+                } else if c.is_empty() {
                     out.fail("c12.cancel/unanswered", format!("CANCEL at {t} (branch_ok={branch_ok}, cseq_ok={cseq_ok}) got no final response"));
                 } else if c.len() > 1 && same_branch == 1 {
                     out.fail("c12.cancel/two-finals", format!("CANCEL at {t} got {c:?}"));
@@ -822,7 +1197,9 @@ pub fn check_race(case: &Case, out: &mut CaseOut) {
                 let c: Vec<u16> = resp.iter().filter_map(|(_, m)| m.status()).filter(|c| *c >= 200).collect();
                 let first_bye = case.net.iter().position(|(_, o)| *o == NetOp::Bye) == Some(n as usize - 1);
                 let by_bye = first_bye && winner == Some(487) && admissible == vec![D::Bye];
-                if by_bye && c != vec![200] {
+                if by_bye && !refused_for(&branch, "BYE").is_empty() {
+                    out.class("own 200/481 refused by the transport (excused)");
+                } else if by_bye && c != vec![200] {
                     // look for the misdirected 200 (built from the INVITE)
                     let stray_200 = inv.iter().any(|(_, m)| m.status() == Some(200));
                     out.fail(
@@ -871,7 +1248,23 @@ pub fn check_race(case: &Case, out: &mut CaseOut) {
     if case.alt_source {
         out.class("CANCEL/BYE/ACK/copies from another source port");
     }
-    if close || admissible.len() > 1 {
+    if case.send_delay_ms > 0 {
+        out.class("send stays pending (back-pressure)");
+    }
+    let mut fault_hit = false;
+    for (_, m) in &obs.refused {
+        fault_hit = true;
+        let Some(m) = m else { continue };
+        let method = m.cseq().map(|c| c.1).unwrap_or_default();
+        match (m.status().unwrap_or(0), method.as_str()) {
+            (100..=199, _) => out.class("transport refused a provisional response"),
+            (487, "INVITE") => out.class("transport refused the 487 of the INVITE"),
+            (_, "INVITE") => out.class("transport refused another final response of the INVITE"),
+            (_, "CANCEL") | (_, "BYE") => out.class("transport refused the answer to a CANCEL / BYE"),
+            _ => out.class("transport refused another message"),
+        }
+    }
+    if close || admissible.len() > 1 || fault_hit {
         out.nontrivial(case);
     }
     let _ = (T1, obs.cancellables_end, obs.dialogs_end, &obs.seen, &obs.session_events);
@@ -881,18 +1274,21 @@ pub fn property() -> Property {
     Property {
         fuzz: vec![],
         id: "C12",
-        rule: "three sub-checks around one incoming INVITE handled by Dialog::new_server + Acceptor under a paused clock. accept_retransmit (enumerated): accept at 0/30 ms x ACK arrival on the grid {+-1 ms around every T1-doubling-capped-at-T2 instant, 64*T1 +-1, never} x ACK CSeq matching / not. reliable_provisional (enumerated): PRACK arrival +-1 ms around every RFC 3262 instant x RAck matching / wrong rseq / wrong cseq. races (random): 1..3 application ops {180, accept, reject, drop} and 1..4 network ops {CANCEL matching / wrong branch / wrong CSeq, BYE, duplicate INVITE, ACK} at instants from {5,6,7,505,506,1505,4000} ms (same instant in both orders), tokio select seed. Non-trivial (races) = a network op and an application op within 1 ms, or two decisive events at one instant.",
+        rule: "three sub-checks around one incoming INVITE handled by Dialog::new_server + Acceptor under a paused clock. accept_retransmit (enumerated): accept at 0/30 ms x ACK arrival on the grid {+-1 ms around every T1-doubling-capped-at-T2 instant, 64*T1 +-1, never} x ACK CSeq matching / not. reliable_provisional (enumerated): PRACK arrival +-1 ms around every RFC 3262 instant x RAck matching / wrong rseq / wrong cseq. Both grids also over a transport whose every send stays pending 2 / 20 ms, with the ACK / PRACK arriving inside the first send, just after it, inside the send of a copy, and mid-interval. races (random): 1..3 application ops {180, accept, reject, drop} and 1..4 network ops {CANCEL matching / wrong branch / wrong CSeq, BYE, duplicate INVITE, ACK} at instants from {5,6,7,505,506,1505,4000} ms (same instant in both orders), tokio select seed, 1/4 with 2 ms send latency, 1/4 with one of the first six sends refused by the transport (then without request copies). send_faults (enumerated): CANCEL / BYE / both / non-matching CANCEL + BYE meeting the pending INVITE x application {nothing, 180, 180 + accept, 180 + reject} x refused send k=0..4 x both same-instant orders x {unreliable, reliable, 2 ms latency}, judged by the races oracle. Non-trivial (races, send_faults) = a network op and an application op within 1 ms, or two decisive events at one instant, or a send was refused.",
         assumptions: vec![
             "same-instant decisive events may be processed in either order: the INVITE's final code must come from one of them",
             "application ops run in list order; an op may start late because the previous call is still waiting (e.g. for an ACK)",
             "total duration of reliable-provisional retransmission is not asserted (observed instants must be a prefix of the RFC 3262 schedule covering at least the first 3.5 s)",
             "which of 200/481 an unmatched CANCEL receives is not asserted; a Drop of the acceptor before any decision removes the exactly-one obligation",
+            "a final response the transport refused (io::Error from Transport::send) counts as the answer the stack gave to THAT request (its code takes part in winner / exactly-one); the answers owed to the other requests (the 200 of the CANCEL / BYE next to a refused 487 and vice versa) are asserted as without the fault; with a refused send no request copies are generated (a copy arriving after its transaction ended unanswered is a new request)",
+            "under send latency d the k-th copy of a 2xx / reliable 1xx is accepted within [nominal, nominal + (k+1)*d]; nothing may be sent after the matching ACK / PRACK arrived, and the waiting call must return within d of it (or of the end of the send it was suspended in)",
         ],
-        explanation: "accept_retransmit and reliable_provisional enumerate their grids completely; races are sampled",
+        explanation: "accept_retransmit, reliable_provisional and send_faults enumerate their grids completely; races are sampled",
         subs: vec![
             enum_sub("accept_retransmit", accept_cases, check_accept),
             enum_sub("reliable_provisional", rel_cases, check_rel),
             prop_sub("races", race_strategy, 1500, 30000, check_race),
+            enum_sub("send_faults", fault_cases, check_race),
         ],
     }
 }
